@@ -496,10 +496,13 @@ impl<Key, Value> CacheD<Key, Value>
 
     fn ttl_ticker(config: &Config<Key, Value>, store: Arc<Store<Key, Value>>, admission_policy: Arc<AdmissionPolicy<Key>>) -> Arc<TTLTicker> {
         let cache_weight_evict_hook = move |key_id: &KeyId| {
+            let has_expired = |key: &Key| {
+                !store.has_unexpired_value_with_key_id(key, key_id)
+            };
             let store_evict_hook = |key| {
                 store.delete_if_key_id_matches(&key, key_id);
             };
-            admission_policy.delete_with_hook(key_id, &store_evict_hook);
+            admission_policy.delete_if_with_hook(key_id, &has_expired, &store_evict_hook);
         };
 
         TTLTicker::new(config.ttl_config(), cache_weight_evict_hook)
